@@ -3,7 +3,8 @@
    code as it was (Private DICT values truncated, charstrings not) loses it. *)
 From Coq Require Import List NArith ZArith Bool Arith Lia.
 From Coq Require Import ZifyBool ZifyNat ZifyN.
-From C13 Require Import Model ModelTables ModelLayout.
+From Common Require Import Outcome.
+From C13 Require Import Model ModelTables ModelLayout Proofs_layout.
 Import ListNotations.
 Ltac Zify.zify_post_hook ::= Z.div_mod_to_equations.
 Local Open Scope Z_scope.
@@ -40,3 +41,12 @@ Lemma width_old_refuted_nominal :
   exists def nom w,
     w <> def /\ -2147483648 <= w - nom < 2147483648 /\ M_width_roundtrip_old def nom w <> w.
 Proof. exists 65536000, 26689536, 19677184. split; [lia|]. split; [lia|]. vm_compute. discriminate. Qed.
+
+(* the FontMatrix of the Top DICT and of every Font DICT survives, whether it
+   is written or omitted: writer and reader use the same default in each place *)
+Lemma fontmatrix_roundtrip_gen p fm : M_fm_read p (M_fm_write p fm) = fm.
+Proof.
+  unfold M_fm_write, M_fm_read.
+  destruct (list_eqbZ fm (fm_default (fm_write_identity p))) eqn:E; [|reflexivity].
+  apply list_eqbZ_true in E. rewrite E. destruct p; reflexivity.
+Qed.
